@@ -524,7 +524,7 @@ pub fn c05(ctx: Arc<Ctx>) {
 	);
 	let work = ct::WorkDir::new("c05");
 	let rt = crate::memsource::runtime(2);
-	let stored: Vec<Key> = vec![(0, 0, 0), (3, 1, 2), (3, 7, 7), (9, 255, 256), (14, 8800, 5370)];
+	let stored: Vec<Key> = vec![(0, 0, 0), (3, 1, 2), (3, 7, 7), (9, 255, 256), (14, 8800, 5370), (30, 5, (1 << 30) - 2), (31, (1u32 << 31) - 1, 6)];
 	let mut srcs: Vec<TileSrc> = vec![];
 	let mut args: Vec<String> = vec![];
 	let add = |id: &str, cont: Cont, format: TileFormat, comp: u8, srcs: &mut Vec<TileSrc>, args: &mut Vec<String>| {
@@ -837,6 +837,9 @@ pub fn c05(ctx: Arc<Ctx>) {
 				(tf((3, 7, 7)), Some((3, 7, 7)), true, false),
 				(tf((9, 255, 256)), Some((9, 255, 256)), true, false),
 				(tf((14, 8800, 5370)), Some((14, 8800, 5370)), true, false),
+				(tf((30, 5, (1 << 30) - 2)), Some((30, 5, (1 << 30) - 2)), true, false),
+				(tf((31, (1u32 << 31) - 1, 6)), Some((31, (1u32 << 31) - 1, 6)), true, false),
+				("30/5/5".into(), None, true, false),
 				("3/3/3".into(), None, true, false),
 				("9/100/100".into(), None, true, false),
 				("2/1/1".into(), None, true, false),
